@@ -374,8 +374,6 @@ theorem entries_balanced (es : List SEntry) (hd : distinct es) : ∀ (bpm : Int)
     exact ih (fun x hx => hd x (by simp [hx])) _ rest
 
 
-namespace Mingus.Props.C18
-open Mingus Mingus.Seq Mingus.Containers
 
 /-! ### observers see what the hooks see — for every operation, whatever it does -/
 
